@@ -4,10 +4,219 @@
    matrices over an arbitrary [realFieldType]; the model text of model/HP.v,
    read at this instance, is what the theorems are about.  Everything is exact
    algebra over the field: no axioms. *)
+(* ================================================================== *)
+(* Part A (plain Coq, any carrier): the Series plumbing of _data_hpf    *)
+(* ================================================================== *)
+From Coq Require Import ZArith List Bool Lia.
+From Verif Require Import MxC14 HPGen HP.
+Import ListNotations.
+
+Lemma nth_map_seq {A : Type} (f : nat -> A) (d : A) (n i : nat) :
+  (i < n)%nat -> nth i (map f (seq 0 n)) d = f i.
+Proof.
+intros H. rewrite (nth_indep _ d (f 0%nat)) by (rewrite map_length, seq_length; exact H).
+rewrite map_nth, seq_nth by exact H. reflexivity.
+Qed.
+
+Section Plumbing.
+Variable O : MatOps.
+Variable solve : forall n, mx O n n -> mx O n 1 -> mx O n 1.
+Variables lg ex : sc O -> sc O.
+Notation S := (sc O).
+Notation args := (hp_args O).
+Local Notation in_span := (HP.in_span O).
+Local Notation enc_start := (HP.enc_start O).
+Local Notation enc_end := (HP.enc_end O).
+Local Notation enc_len := (HP.enc_len O).
+Local Notation enc_data := (HP.enc_data O).
+Local Notation at_period := (HP.at_period O).
+Local Notation span_of := (HP.span_of O).
+Local Notation series_len := (HP.series_len O).
+Local Notation opt_min := (HP.opt_min O).
+Local Notation opt_max := (HP.opt_max O).
+Local Notation prepare := (HP.prepare O).
+Local Notation drop_first_date := (HP.drop_first_date O).
+Local Notation smooth_of := (HP.smooth_of O).
+Local Notation obs_at := (HP.obs_at O).
+Local Notation val_at := (HP.val_at O).
+Local Notation log_data := (HP.log_data O).
+Local Notation log_cs := (HP.log_cs O).
+Local Notation mode_data := (HP.mode_data O).
+Local Notation mode_cs := (HP.mode_cs O).
+Local Notation post := (HP.post O).
+Local Notation hp_trend := (HP.hp_trend O).
+Local Notation hp_gap := (HP.hp_gap O).
+Local Notation hp_trend_mode := (HP.hp_trend_mode O).
+Local Notation hp_gap_mode := (HP.hp_gap_mode O).
+Local Notation hpf_trend_at := (HP.hpf_trend_at O).
+Local Notation hpf_gap_at := (HP.hpf_gap_at O).
+Local Notation hpf_model := (HP.hpf_model O).
+Local Notation hpf_variant := (HP.hpf_variant O).
+Local Notation mkHpArgs := (HP.mkHpArgs O).
+Local Notation a_freq := (HP.a_freq O).
+Local Notation a_start := (HP.a_start O).
+Local Notation a_vars := (HP.a_vars O).
+Local Notation a_level := (HP.a_level O).
+Local Notation a_change := (HP.a_change O).
+Local Notation a_span := (HP.a_span O).
+Local Notation a_smooth := (HP.a_smooth O).
+Local Notation a_log := (HP.a_log O).
+Local Notation hp_trend_vec := (HP.hp_trend_vec O).
+
+Lemma enc_bounds (a : args) (t : Z) :
+  in_span a t = true -> (enc_start a <= t <= enc_end a)%Z.
+Proof.
+unfold in_span, enc_start, enc_end, opt_min, opt_max. intros H.
+apply andb_prop in H. destruct H as [H1 H2]. apply Z.leb_le in H1. apply Z.leb_le in H2.
+destruct (a_level a) as [[ls lv]|]; destruct (a_change a) as [[cs cv]|]; lia.
+Qed.
+
+Lemma enc_index (a : args) (t : Z) :
+  in_span a t = true -> (Z.to_nat (t - enc_start a) < enc_len a)%nat.
+Proof. intros H. apply enc_bounds in H. unfold enc_len. lia. Qed.
+
+(* the data handed to the filter at the row of period t are the series' values at t *)
+Lemma enc_data_nth (a : args) (v : list (option S)) (t : Z) :
+  in_span a t = true ->
+  nth (Z.to_nat (t - enc_start a)) (enc_data a v) None = at_period (a_start a) v t.
+Proof.
+intros H. unfold enc_data. rewrite nth_map_seq by (apply enc_index; exact H).
+apply enc_bounds in H. f_equal. lia.
+Qed.
+
+Lemma nth_log (d : list (option S)) (i : nat) :
+  nth i (map (option_map lg) d) None = option_map lg (nth i d None).
+Proof. exact (map_nth (option_map lg) d None i). Qed.
+
+Lemma obs_at_log (d : list (option S)) (i : nat) : obs_at (log_data lg d) i = obs_at d i.
+Proof.
+unfold HP.obs_at, HP.log_data. rewrite nth_log.
+destruct (nth i d None); reflexivity.
+Qed.
+
+Lemma val_at_log (d : list (option S)) (i : nat) :
+  obs_at d i = true -> val_at (log_data lg d) i = lg (val_at d i).
+Proof.
+unfold HP.obs_at, HP.val_at, HP.log_data. rewrite nth_log.
+destruct (nth i d None); simpl; [reflexivity | discriminate].
+Qed.
+
+(* trend: a value on every period of the requested span, nothing outside *)
+Theorem hpf_trend_defined (a : args) (v : list (option S)) (t : Z) :
+  hpf_trend_at solve lg ex a v t = None <-> in_span a t = false.
+Proof. unfold hpf_trend_at. destruct (in_span a t); split; intros H; congruence. Qed.
+
+(* gap: missing exactly where the data are missing (or outside the requested span) *)
+Theorem hpf_gap_defined (a : args) (v : list (option S)) (t : Z) :
+  hpf_gap_at solve lg ex a v t = None <-> (in_span a t = false \/ at_period (a_start a) v t = None).
+Proof.
+unfold hpf_gap_at. destruct (in_span a t) eqn:Hs.
+- unfold hp_gap_mode, hp_gap.
+  assert (Ho : obs_at (mode_data lg (a_log a) (enc_data a v)) (Z.to_nat (t - enc_start a))
+               = obs_at (enc_data a v) (Z.to_nat (t - enc_start a))).
+  { unfold mode_data. destruct (a_log a); [apply obs_at_log | reflexivity]. }
+  rewrite Ho. unfold obs_at. rewrite enc_data_nth by exact Hs.
+  destruct (at_period (a_start a) v t); simpl; split; intros H; try congruence; try (right; reflexivity).
+  destruct H; congruence.
+- split; intros _; [left; reflexivity | reflexivity].
+Qed.
+
+(* log=False: gap = data - trend, entry by entry *)
+Theorem hpf_gap_value (a : args) (v : list (option S)) (t : Z) (g : S) :
+  a_log a = false -> hpf_gap_at solve lg ex a v t = Some g ->
+  exists y tr, at_period (a_start a) v t = Some y /\ hpf_trend_at solve lg ex a v t = Some tr /\
+               g = s_sub O y tr.
+Proof.
+intros Hl. unfold hpf_gap_at, hpf_trend_at. destruct (in_span a t) eqn:Hs; [|discriminate].
+unfold hp_gap_mode, hp_trend_mode, hp_gap. rewrite Hl. simpl.
+unfold obs_at, val_at. rewrite enc_data_nth by exact Hs.
+destruct (at_period (a_start a) v t) as [y|]; simpl; [|discriminate].
+intros H. injection H as <-. exists y. eexists. repeat split.
+Qed.
+
+(* log=True: gap = exp(log data - log-trend), trend = exp(log-trend), where log-trend is the
+   filter applied to the logarithms of the data and of the constraint values *)
+Theorem hpf_gap_value_log (a : args) (v : list (option S)) (t : Z) (g : S) :
+  a_log a = true -> hpf_gap_at solve lg ex a v t = Some g ->
+  exists y ltr, at_period (a_start a) v t = Some y /\
+                hpf_trend_at solve lg ex a v t = Some (ex ltr) /\
+                ltr = hp_trend solve (enc_len a) (smooth_of a) (log_data lg (enc_data a v))
+                               (log_cs lg (prepare a (a_level a)))
+                               (log_cs lg (drop_first_date (prepare a (a_change a))))
+                               (Z.to_nat (t - enc_start a)) /\
+                g = ex (s_sub O (lg y) ltr).
+Proof.
+intros Hl. unfold hpf_gap_at, hpf_trend_at. destruct (in_span a t) eqn:Hs; [|discriminate].
+unfold hp_gap_mode, hp_trend_mode, hp_gap. rewrite Hl. simpl.
+rewrite obs_at_log.
+destruct (obs_at (enc_data a v) (Z.to_nat (t - enc_start a))) eqn:Ho; simpl; [|discriminate].
+rewrite val_at_log by exact Ho.
+revert Ho. unfold obs_at, val_at. rewrite enc_data_nth by exact Hs.
+destruct (at_period (a_start a) v t) as [y|]; simpl; [|discriminate].
+intros _ H. injection H as <-. exists y. eexists. repeat split.
+Qed.
+
+(* hpf_model (what the case files evaluate, one solve per variant) is hpf_trend_at / hpf_gap_at *)
+Theorem hpf_model_pointwise (a : args) (w : Z) (len : nat) :
+  hpf_model solve lg ex a w len =
+  map (fun v => (map (hpf_trend_at solve lg ex a v) (window w len),
+                 map (hpf_gap_at solve lg ex a v) (window w len))) (a_vars a).
+Proof.
+unfold hpf_model. apply map_ext. intros v. unfold hpf_variant. f_equal.
+apply map_ext. intros t. unfold hpf_gap_at, hp_gap_mode, hp_gap, hp_trend.
+destruct (in_span a t); [|reflexivity].
+destruct (obs_at _ _); reflexivity.
+Qed.
+
+(* ---- the requested span only selects rows ---- *)
+Definition with_span (a : args) (s : option (Z * Z)) : args :=
+  mkHpArgs (a_freq a) (a_start a) (a_vars a) (a_level a) (a_change a) s (a_smooth a) (a_log a).
+
+(* a requested span inside the span covered by the data and the constraints *)
+Definition span_inside (a : args) (s : Z * Z) : Prop :=
+  (enc_start (with_span a None) <= fst s)%Z /\ (snd s <= enc_end (with_span a None))%Z /\ (fst s <= snd s)%Z.
+
+Lemma enc_inside (a : args) (s : Z * Z) :
+  span_inside a s ->
+  enc_start (with_span a (Some s)) = enc_start (with_span a None) /\
+  enc_end (with_span a (Some s)) = enc_end (with_span a None).
+Proof.
+unfold span_inside, enc_start, enc_end, opt_min, opt_max, span_of, series_len, with_span. simpl.
+destruct (a_level a) as [[ls lv]|]; destruct (a_change a) as [[cs cv]|]; lia.
+Qed.
+
+Theorem hpf_clip_only (a : args) (s : Z * Z) (v : list (option S)) (t : Z) :
+  span_inside a s ->
+  hpf_trend_at solve lg ex (with_span a (Some s)) v t =
+    (if (fst s <=? t)%Z && (t <=? snd s)%Z
+     then Some (hp_trend_mode solve lg ex (a_log a) (enc_len (with_span a None)) (smooth_of (with_span a None))
+                  (enc_data (with_span a None) v)
+                  (prepare (with_span a None) (a_level a))
+                  (drop_first_date (prepare (with_span a None) (a_change a)))
+                  (Z.to_nat (t - enc_start (with_span a None))))
+     else None) /\
+  hpf_gap_at solve lg ex (with_span a (Some s)) v t =
+    (if (fst s <=? t)%Z && (t <=? snd s)%Z
+     then hp_gap_mode solve lg ex (a_log a) (enc_len (with_span a None)) (smooth_of (with_span a None))
+                  (enc_data (with_span a None) v)
+                  (prepare (with_span a None) (a_level a))
+                  (drop_first_date (prepare (with_span a None) (a_change a)))
+                  (Z.to_nat (t - enc_start (with_span a None)))
+     else None).
+Proof.
+intros Hin. destruct (enc_inside a s Hin) as [E1 E2].
+unfold hpf_trend_at, hpf_gap_at, in_span, enc_data, prepare, enc_len.
+rewrite !E1, !E2. simpl. split; reflexivity.
+Qed.
+
+End Plumbing.
+
+(* ================================================================== *)
+(* Part B (MathComp): the algebra                                       *)
+(* ================================================================== *)
 From Coq Require Import ZArith List.
 From mathcomp Require Import all_ssreflect all_algebra.
 From mathcomp Require Import ring zify.
-From Verif Require Import MxC14 HPGen HP.
 
 Set Implicit Arguments.
 Unset Strict Implicit.
@@ -212,17 +421,16 @@ Theorem hp_wellposed_abs :
   Mbord \in unitmx.
 Proof.
 move=> Hl Hker Hrank; apply: unit_of_ker => x.
-rewrite -[x]vsubmxK /Mbord mul_block_col mul0mx addr0 -[0]vsubmxK.
+rewrite -[x]vsubmxK /Mbord mul_block_col mul0mx addr0.
 set d := usubmx x; set mu := dsubmx x.
-rewrite (_ : usubmx 0 = 0) ?(_ : dsubmx 0 = 0); try by apply/matrixP=> i j; rewrite !mxE.
+have -> : (0 : 'cV[F]_(n + k)) = col_mx 0 0 by rewrite col_mx0.
 move=> /eq_col_mx [N Cd].
 have N' : (Fmat + Eobs) *m 0 + C^T *m 0 = Eobs *m (0 : 'cV[F]_n) by rewrite !mulmx0 addr0.
 (* d' (F+E) d = 0 *)
 have Q0 : Qabs d = 0.
   rewrite Qabs_mx.
   have -> : d^T *m Eobs *m d + lam *: ((K *m d)^T *m (K *m d)) = d^T *m ((Fmat + Eobs) *m d).
-    rewrite mulmxDl mulmxDr /Fmat -!scalemxAl -scalemxAr trmx_mul !mulmxA.
-    by apply/matrixP=> i j; rewrite !mxE; ring.
+    by rewrite mulmxDl mulmxDr /Fmat -!scalemxAl -scalemxAr trmx_mul !mulmxA addrC.
   have -> : (Fmat + Eobs) *m d = - (C^T *m mu) by apply/eqP; rewrite -addr_eq0 N.
   by rewrite mulmxN mulmxA -trmx_mul Cd trmx0 mul0mx oppr0 mxE.
 have [Ed Kd] := Qabs_eq0 Hl Q0.
@@ -254,3 +462,4 @@ Qed.
 
 End Abstract.
 End Instance.
+
